@@ -562,3 +562,23 @@ theorem C14_reg_model_eq_regspec (isMin : Bool) (A : Img Int) (S : List Nat) (bc
   rw [regModelRaw_eq]
   cases ha : (regModel isMin A (neighbours S bc)).getD (ravelI A.shape q) false <;>
     cases hb : (regSpec isMin A (neighbours S bc)).getD (ravelI A.shape q) false <;> simp_all
+
+/-- **the `slack` loop of `hitmiss` and its closed form** (partial: a finite table instead of all sizes). `hmLoop`
+transliterates the main loop of `hitmiss<T>` as far as *which flat indices are evaluated* goes (`while (!slack)`:
+find the first axis with a too small margin and zero `size` positions, or set `slack = dim(last) − Bc.dim(last) + 1`;
+then `--slack`, evaluate, `++i`); `hmEvaluated` — the definition every other `hitmiss` theorem is about — is its
+closed form. They agree for every image length 1–10 × template length 1–7 in 1-D, all image sides 1–5 × template
+sides 1–5 in 2-D, and image sides ≤ 3×3×4 × template sides ≤ 3×4×4 in 3-D (kernel evaluation). The driver
+re-checks the agreement (`loopok=`) on every `hitmiss` line of the correspondence. Missing: the proof for all
+shapes (the invariant "every axis whose later coordinates are not all zero has a sufficient margin"). -/
+theorem C14_hitmiss_loop_table_partial :
+    (∀ n ∈ List.range 10, ∀ b ∈ List.range 7, hmLoopOk [n + 1] [b + 1] = true) ∧
+    (∀ h ∈ List.range 5, ∀ w ∈ List.range 5, ∀ a ∈ List.range 5, ∀ b ∈ List.range 5,
+      hmLoopOk [h + 1, w + 1] [a + 1, b + 1] = true) ∧
+    (∀ d ∈ List.range 3, ∀ h ∈ List.range 3, ∀ w ∈ List.range 4, ∀ c ∈ List.range 3, ∀ a ∈ List.range 4,
+      ∀ b ∈ List.range 4, hmLoopOk [d + 1, h + 1, w + 1] [c + 1, a + 1, b + 1] = true) := by
+  decide +kernel
+
+/-- the loop on a 3×3 image with a 2×2 template: rows 0 and 2 are zeroed as whole rows, in row 1 column 0 is
+    zeroed, then `slack = 2` positions are evaluated -/
+example : hmLoopFlags [3, 3] [2, 2] = [false, false, false, false, true, true, false, false, false] := by decide
